@@ -80,6 +80,19 @@ STOP:
 	return nil
 }
 
+// route returns the route registered for the given method with exactly this pattern, or nil. Unlike lookup, the pattern
+// is compared literally against the node keys (wildcards included), it is not matched as a request.
+func (r roots) route(method, pattern string) *Route {
+	index := r.methodIndex(method)
+	if index < 0 || len(r[index].children) == 0 {
+		return nil
+	}
+	if n := r.search(r[index], pattern); n != nil && n.isLeaf() && n.route.pattern == pattern {
+		return n.route
+	}
+	return nil
+}
+
 // lookup  returns the node matching the host and/or path. If lazy is false, it parses and record into c, path segment according to
 // the route definition. In case of indirect match, tsr is true and n != nil.
 func (r roots) lookup(t *iTree, method, hostPort, path string, c *cTx, lazy bool) (n *node, tsr bool) {
@@ -460,12 +473,15 @@ Walk:
 				}
 			}
 
-			// linear search
+			// linear search. A '{' or '*' in the request path is never static text: it must not select a wildcard
+			// child as if its key were a literal, which would bypass the param-before-catch-all priority.
 			idx := -1
-			for i := 0; i < len(current.childKeys); i++ {
-				if current.childKeys[i] == path[charsMatched] {
-					idx = i
-					break
+			if path[charsMatched] != bracketDelim && path[charsMatched] != starDelim {
+				for i := 0; i < len(current.childKeys); i++ {
+					if current.childKeys[i] == path[charsMatched] {
+						idx = i
+						break
+					}
 				}
 			}
 
